@@ -103,6 +103,89 @@ class _CanonIf(ast.NodeTransformer):
         return node
 
 
+def _canon_views(tree):
+    """Row aliases are analysed in their direct form:  `row = A[i]` ... `row[k]`  is  `A[i, k]`  (basic indexing with an integer-like index
+    gives a view of the same memory, so both spellings read and write the same cells).  Only subscripted uses of a local that is bound exactly
+    once are rewritten, and only while nothing the index is built from has been assigned in between; the alias statement itself stays (the
+    name may also be passed on as a whole)."""
+    import copy
+
+    import re as _re
+    INTNAME = _re.compile(r"(^|_)(idx|index|i|j|k|n|i0|i1|i2)$|^n_|_idx$|_index$|^idx|^index")
+
+    def intlike(e, ints):
+        """evidently a scalar integer: only then is A[e] a view of row e (an integer ARRAY would make it a copy with other semantics)"""
+        if isinstance(e, ast.Tuple):
+            return all(intlike(x, ints) for x in e.elts)
+        if isinstance(e, ast.Constant):
+            return isinstance(e.value, int) and not isinstance(e.value, bool)
+        if isinstance(e, ast.Name):
+            return e.id in ints or bool(INTNAME.search(e.id))
+        if isinstance(e, ast.Attribute):
+            return bool(INTNAME.search(e.attr))
+        if isinstance(e, ast.BinOp) and isinstance(e.op, (ast.Add, ast.Sub, ast.Mult, ast.FloorDiv, ast.Mod)):
+            return intlike(e.left, ints) and intlike(e.right, ints)
+        return False
+
+    for fn in ast.walk(tree):
+        if not isinstance(fn, ast.FunctionDef):
+            continue
+        ints = set()
+        for n in ast.walk(fn):
+            if isinstance(n, ast.For) and isinstance(n.target, ast.Name) and isinstance(n.iter, ast.Call) and ast.unparse(n.iter.func) in ("range", "numba.prange", "prange"):
+                ints.add(n.target.id)
+            elif isinstance(n, ast.Assign) and len(n.targets) == 1 and isinstance(n.targets[0], ast.Name) and isinstance(n.value, ast.Constant) \
+                    and isinstance(n.value.value, int) and not isinstance(n.value.value, bool):
+                ints.add(n.targets[0].id)
+        params = {a.arg for a in fn.args.args + fn.args.kwonlyargs + fn.args.posonlyargs}
+        stores = {}
+        for n in ast.walk(fn):
+            if isinstance(n, ast.Name) and isinstance(n.ctx, (ast.Store, ast.Del)):
+                stores.setdefault(n.id, []).append(n.lineno)
+            elif isinstance(n, ast.Attribute) and isinstance(n.ctx, (ast.Store, ast.Del)):
+                stores.setdefault(ast.unparse(n), []).append(n.lineno)
+            elif isinstance(n, ast.AugAssign):
+                stores.setdefault(ast.unparse(n.target), []).append(n.lineno)
+        aliases = {}
+        for st in ast.walk(fn):
+            prefix = isinstance(st, ast.Assign) and isinstance(st.value, ast.Subscript) and isinstance(st.value.slice, ast.Slice) and st.value.slice.lower is None \
+                and st.value.slice.step is None and st.value.slice.upper is not None and intlike(st.value.slice.upper, ints)
+            if isinstance(st, ast.Assign) and len(st.targets) == 1 and isinstance(st.targets[0], ast.Name) and isinstance(st.value, ast.Subscript) \
+                    and isinstance(st.value.value, (ast.Name, ast.Attribute)) and (intlike(st.value.slice, ints) or prefix):
+                v = st.targets[0].id
+                if v in params or len(stores.get(v, [])) != 1:
+                    continue
+                aliases[v] = st
+        if not aliases:
+            continue
+        # never inside loops whose body lies before the alias (stale view) - keep it simple: uses must come after the definition
+        class R(ast.NodeTransformer):
+            def visit_Subscript(self, n):
+                self.generic_visit(n)
+                if isinstance(n.value, ast.Name) and n.value.id in aliases:
+                    st = aliases[n.value.id]
+                    if n.lineno <= st.lineno:
+                        return n
+                    idx_names = {ast.unparse(x) for x in ast.walk(st.value.slice) if isinstance(x, (ast.Name, ast.Attribute))}
+                    base = ast.unparse(st.value.value)
+                    for nm in idx_names | {base}:
+                        if any(st.lineno < ln <= n.lineno for ln in stores.get(nm, [])):
+                            return n
+                    first = list(st.value.slice.elts) if isinstance(st.value.slice, ast.Tuple) else [st.value.slice]
+                    second = list(n.slice.elts) if isinstance(n.slice, ast.Tuple) else [n.slice]
+                    if isinstance(st.value.slice, ast.Slice):
+                        # prefix alias  v = A[:n]:  only  v[:, ...]  (all rows of the prefix) is rewritten, to  A[:n, ...]
+                        s0 = second[0]
+                        if not (isinstance(s0, ast.Slice) and s0.lower is None and s0.upper is None and s0.step is None and len(second) >= 2):
+                            return n
+                        second = second[1:]
+                    new = ast.Subscript(value=copy.deepcopy(st.value.value), slice=ast.Tuple(elts=[copy.deepcopy(x) for x in first] + second, ctx=ast.Load()), ctx=n.ctx)
+                    return ast.copy_location(new, n)
+                return n
+        R().visit(fn)
+        ast.fix_missing_locations(fn)
+
+
 class ModuleInfo:
     def __init__(self, name, path, relpath, source):
         self.name = name
@@ -115,6 +198,7 @@ class ModuleInfo:
         except SyntaxError as e:  # pragma: no cover
             raise AnalysisError("cannot parse %s: %s" % (relpath, e))
         _CanonIf().visit(self.tree)
+        _canon_views(self.tree)
         self.functions = {}   # qualname -> FuncInfo (incl. methods "Class.meth", nested "f.<locals>.g")
         self.classes = {}     # name -> ClassInfo
         self.constants = {}   # module-level NAME -> python constant (folded)
